@@ -117,6 +117,8 @@ def shift_model(m, k):
         for key in ("leaves", "vacs"):
             if key in r:
                 r[key] = [(s + d, None if e is None else e + d) for s, e in r[key]]
+        if "bookings" in r:
+            r["bookings"] = [(s + d, mins) for s, mins in r["bookings"]]
     if "vacations" in m2:
         m2["vacations"] = [(s + d, None if e is None else e + d) for s, e in m2["vacations"]]
     for t in m2["tasks"]:
@@ -281,6 +283,18 @@ def macro_rewrite(rnd, text):
         s = line.strip()
         k = rnd.random()
         mm = re.match(r"^(effort) (\d+min)$", s)
+        if mm and k >= 0.4 and k < 0.5:
+            # a macro with more than nine parameters: $1 must not be substituted inside $10 / $11
+            name = "mW%d" % n
+            n += 1
+            filler = ["p%d" % i for i in range(1, 10)]
+            if rnd.random() < 0.5:
+                defs.append("macro %s [ effort $10 ]" % name)
+                out.append("  ${%s %s %s}" % (name, " ".join(filler), mm.group(2)))
+            else:
+                defs.append("macro %s [ $11 $10 ]" % name)
+                out.append("  ${%s %s %s effort}" % (name, " ".join(filler), mm.group(2)))
+            continue
         md = re.match(r"^(start|end) (\S+)$", s)
         if mm and k < 0.4:
             name = "mE%d" % n
@@ -432,7 +446,7 @@ def c16_case(rnd, cs, job, acc):
     kinds = [dict(subslot=True, tz=False), dict(core=True, subslot=False), dict(subslot=False, limits=True, tasklimits=True, tz=False),
              dict(subslot=False, limits=True, overrun=True, weeks=(1, 2), tz=False)]
     kw = dict(rnd.choice(kinds))
-    kw.update(res_choices=(60, 60, 30), alap=False, ntasks=(2, 7))
+    kw.update(res_choices=(60, 60, 30), alap=(rnd.random() < 0.25), ntasks=(2, 7), onstart=False)
     m = gen.gen(rnd, **kw)
     if not m["acyclic"]:
         acc.count("skipped-cyclic")
@@ -449,6 +463,9 @@ def c16_case(rnd, cs, job, acc):
             n_over += 1
         if "start" in t and rnd.random() < 0.5:
             t["sc_start"] = {s: t["start"] + timedelta(days=rnd.randint(1, 3)) for s in rnd.sample(sids[1:], 1)}
+            n_over += 1
+        if "end" in t and rnd.random() < 0.5:
+            t["sc_end"] = {s: t["end"] - timedelta(days=rnd.randint(1, 2)) for s in rnd.sample(sids[1:], 1)}
             n_over += 1
     text_multi = gen.render(m_multi, scenarios=scen_lines(tree))
     p, _, ev = run(text_multi)
@@ -471,6 +488,9 @@ def c16_case(rnd, cs, job, acc):
             v = effective(tree, tmulti.get("sc_start", {}), sid)
             if v is not None:
                 t["start"] = v
+            v = effective(tree, tmulti.get("sc_end", {}), sid)
+            if v is not None:
+                t["end"] = v
         ps, _, _ = run(gen.render(ms))
         acc.count("single-scenario-runs")
         if ps["end"] != ends:
@@ -489,7 +509,7 @@ def c16_case(rnd, cs, job, acc):
     for i, sid in enumerate(sids):
         if par[sid] is None:
             continue
-        has_own = any(sid in t.get("sc_effort", {}) or sid in t.get("sc_start", {}) for t in m_multi["tasks"])
+        has_own = any(sid in t.get("sc_effort", {}) or sid in t.get("sc_start", {}) or sid in t.get("sc_end", {}) for t in m_multi["tasks"])
         if not has_own:
             j = sids.index(par[sid])
             if per_sc[i] != per_sc[j]:
